@@ -423,3 +423,8 @@ def describe(plan):
             "write_control": plan["script"][0].get("w"),
             "ops": [{"id": op.get("id"), "at": op.get("at"), "op": op["op"], "kind": op.get("kind"),
                      "pgn": json.loads(op["msg"])["PGN"] if op.get("msg") else None} for op in plan["ops"]]}
+
+
+def seam_check():
+    from .common import seam_net, seam_clock, seam_fs
+    return seam_net()
